@@ -206,6 +206,15 @@ def ring_index(F, R):
             n += 1
             t = sym_nstr(sym(f, c.args[1]))
             ok = re.search(r'% self\.capacity\)?$', t) is not None
+            if not ok:
+                # the index may be computed by a private helper of the queue (extract-function refactoring): look at what the helper returns
+                pr = f.prov_operand(c.args[1])
+                if pr.root[0] == 'call' and not pr.path and (pr.root[1].callee or '').startswith('iceoryx2_bb_container::queue::'):
+                    g = F.fn_opt(pr.root[1].callee)
+                    if g is not None:
+                        tg = sym_nstr(core.sym_place(g, [0]))
+                        ok = re.search(r'% self\.capacity\)?$', tg) is not None
+                        t = '%s = %s' % (t, tg)
             R.ob('SYM-EQ', 'SYM-EQ::%s::slot-index-is-ring-index' % fnkey(f), ok, 'slot address data_ptr.add(%s); required (<position>) %% self.capacity' % t[:120], c.where, f)
     R.floor('raw ring-buffer slot accesses in MetaQueue', n, 5)
 
